@@ -413,7 +413,15 @@ def _sb_store(eng, st, a, i, v):
     return SV(a.ty, z3.Store(a.t, eng.coerce(i, INT)[0].t, x.t))
 
 
-SPEC_BUILTINS = {"store": _sb_store, "ival": _sb_ival, "seq_empty_real": _sb_seq_empty_real, "powf": _sb_powf,
+def _sb_isref(eng, st, x):
+    if x.ty.kind == "ref":
+        return mk_bool(True)
+    if x.ty.kind == "obj":
+        return mk_bool(PyObj.is_O_ref(x.t))
+    return mk_bool(False)
+
+
+SPEC_BUILTINS = {"isref": _sb_isref, "store": _sb_store, "ival": _sb_ival, "seq_empty_real": _sb_seq_empty_real, "powf": _sb_powf,
                  "isinf": _sb_isinf, "isnan": _sb_isnan, "isfin": _sb_isfin, "val": _sb_val, "same": _sb_same,
                  "isnum": _sb_isnum, "isint": _sb_isint, "isfloat": _sb_isfloat, "isstr": _sb_isstr,
                  "isbool": _sb_isbool, "isnone": _sb_isnone,
@@ -1091,6 +1099,12 @@ def call_function(eng, f, recv, args, kwargs, st, recv_static=None, via_super=Fa
         return spec_method_call(eng, f, c, recv, args, kwargs, st)
     eng.callees.add(f.qual)
     if c is not None and not c.inline:
+        if via_super and f.cls and eng.self_class and recv is not None and "self" in st.env \
+                and recv.t.eq(st.env["self"].t) and not c.abstract:
+            verified_for = c.for_classes or [f.cls]
+            if eng.self_class not in verified_for:
+                raise Unsupported("contract of %s is used through super()/explicit base call for receiver "
+                                  "class %s but is only verified for %s" % (f.qual, eng.self_class, verified_for))
         return apply_contract(eng, c, f, recv, args, kwargs, st)
     if c is None and not is_trivial(f):
         raise Unsupported("callee %s has no contract (and is not a one-line getter)" % f.qual)
